@@ -40,7 +40,7 @@ var CfgC02 = reg(&MachineCfg{
 var CfgC13 = reg(&MachineCfg{
 	Prop: "C13",
 	Gens: []interface{}{"aol", 70, "commit", 18, "crash", 3, "export", 4, "bank", 2, "walks", 3},
-	Bias: map[string]int{"right-signers": 92, "exec": 4, "multi": 20},
+	Bias: map[string]int{"right-signers": 94, "exec": 3, "multi": 10, "aol-owners": 2, "aol-create": 4, "aol-delw": 3, "aol-rec": 6},
 	Rule: "AOL machine on prefix-related topic names; after every commit the owner/topic counters (store and query) and complete paging walks (key- and offset-style, limits 0/1/2/3/n±1/huge, forward and reverse, with and without count_total) are compared with the model; non-trivial = an owner with >=3 topics, a writer deleted, and a multi-page walk",
 	NonTrivial: func(w *world.World) bool {
 		return lab(w, "c13 multi-page walk") > 0 && lab(w, "aol writer deleted") > 0 && lab(w, "aol topic created") >= 3
@@ -110,7 +110,7 @@ var CfgC11 = reg(&MachineCfg{
 var CfgC06 = reg(&MachineCfg{
 	Prop: "C06",
 	Gens: []interface{}{"pnft", 70, "commit", 12, "authz", 10, "crash", 2, "restart", 2, "bank", 2, "export", 2},
-	Bias: map[string]int{"right-signers": 62, "exec": 18},
+	Bias: map[string]int{"right-signers": 68, "exec": 15, "pnft-handover": 5, "pnft-transfer": 6, "former-owner": 35},
 	Rule: "PNFT state machine: the seven message types with actors chosen independently of signers, hand-over chains, burn and re-mint, former owners and creators, ghost receivers, upper-case spellings, authz grant/exec; oracle = transition validity (actor is the current owner and stands behind the tx) + full decoded-store agreement after every DeliverTx; non-trivial = an ownership hand-over followed by a refused attempt of the former owner",
 	NonTrivial: func(w *world.World) bool {
 		return lab(w, "pnft denom handed over")+lab(w, "pnft transferred") > 0 && lab(w, "pnft former owner refused") > 0
